@@ -20,15 +20,17 @@ import (
 // SyncerNode is a real syncer.Syncer on a loopback address, over a kit.Node
 // whose manager is wrapped in a RecCM, with a recording peer store.
 type SyncerNode struct {
-	Name  string
-	IP    string
-	Tree  *kit.Tree
-	Node  *kit.Node
-	CM    *RecCM
-	Store *RecPeerStore
-	L     net.Listener
-	S     *syncer.Syncer
-	UID   gateway.UniqueID
+	// Stripped: Announce sends outlines without transaction bodies.
+	Stripped bool
+	Name     string
+	IP       string
+	Tree     *kit.Tree
+	Node     *kit.Node
+	CM       *RecCM
+	Store    *RecPeerStore
+	L        net.Listener
+	S        *syncer.Syncer
+	UID      gateway.UniqueID
 
 	RunErr chan error // receives Run's result once
 
